@@ -147,7 +147,7 @@ func init() {
 		ID:          "C11",
 		Run:         RunC11,
 		Replay:      func(c *Ctx, entry, input string) { CheckC11(c, entry, input) },
-		Rule:        "cases = ';'-joined lists of 1-4 corpus statements (all kinds -> ParseStatements, DDL -> ParseDDLs, DML -> ParseDMLs), some token-mutated, plus end-of-input-sensitive statements (trailing select-list comma), literals and comments containing ';', with hostile trivia / empty statements around the separators; list parse vs SplitRawStatements + single parse of each piece with >= 1 token; distinct_nontrivial = distinct lists with >= 2 statements",
+		Rule:        "cases = ';'-joined lists of 1-4 corpus statements (all kinds -> ParseStatements, DDL -> ParseDDLs, DML -> ParseDMLs), some token-mutated, plus end-of-input-sensitive statements (trailing select-list comma), literals and comments containing ';', with hostile trivia / empty statements around the separators, plus long homogeneous lists (4096 quick / 20000 thorough copies of each of 56 statement shapes incl. rejected ones, 2500 copies of each sentence of the systematic set of grammar G) that drive one parser instance through thousands of statements; list parse vs SplitRawStatements + single parse of each piece with >= 1 token; distinct_nontrivial = distinct lists with >= 2 statements",
 		Assumptions: []string{"'lexes without error' is decided by memefish.Lexer (checked by C13/C14)"},
 		Floors: func(m *Merged) []string {
 			if m.Counters["lists_clean"] == 0 || m.Counters["lists_with_error"] == 0 || m.Counters["empty_pieces"] == 0 || m.Counters["positions_compared"] == 0 {
